@@ -171,7 +171,7 @@ func (e *Engine) step(f *frame) (*frame, []*frame, []Outcome) {
 	case *ssa.UnOp:
 		return e.unop(f, x)
 	case *ssa.Convert:
-		f.env[x] = e.convert(e.get(f, x.X), x.X.Type(), x.Type())
+		f.env[x] = e.convert(f.st, e.get(f, x.X), x.X.Type(), x.Type())
 	case *ssa.ChangeType:
 		f.env[x] = e.get(f, x.X)
 	case *ssa.ChangeInterface:
@@ -686,7 +686,7 @@ func (e *Engine) valEq(a, b Value) *smt.Term {
 	return nil
 }
 
-func (e *Engine) convert(v Value, from, to types.Type) Value {
+func (e *Engine) convert(st *State, v Value, from, to types.Type) Value {
 	fw, fsigned, fint, ffloat := basicInfo(from)
 	tw, tsigned, tint, tfloat := basicInfo(to)
 	switch {
@@ -728,8 +728,19 @@ func (e *Engine) convert(v Value, from, to types.Type) Value {
 	// string <-> []byte / []rune (concrete only)
 	if isString(to) {
 		if sl, ok := v.(Slice); ok {
-			_ = sl
-			e.abort("conversion []byte->string is not modelled here (use an intercept)")
+			if sl.Cell == 0 {
+				return Str{}
+			}
+			arr := st.heap[sl.Cell].(*ArrayV)
+			b := make([]byte, 0, sl.Hi-sl.Lo)
+			for _, el := range arr.E[sl.Lo:sl.Hi] {
+				t, ok := el.(*smt.Term)
+				if !ok || !t.IsConst() {
+					e.abort("conversion of a symbolic []byte to string is not modelled")
+				}
+				b = append(b, byte(t.U))
+			}
+			return Str{S: string(b)}
 		}
 		if t, ok := v.(*smt.Term); ok && t.IsConst() {
 			return Str{S: string(rune(t.SInt()))}
